@@ -141,14 +141,19 @@ func c08Snap(ts *TrieState, alpha string) string {
 	inKeys := [][]byte{{}, {x}, {x, y}, {y}}
 	var parts []string
 	for _, k := range mainKeys {
-		parts = append(parts, c08One(ts, "get "+vhHex(k)), c08One(ts, "next "+vhHex(k)))
+		if len(k) > 0 { // Get of the empty key is explicit only (trie quirk at the root)
+			parts = append(parts, c08One(ts, "get "+vhHex(k)))
+		}
+		parts = append(parts, c08One(ts, "next "+vhHex(k)))
 	}
 	parts = append(parts, c08One(ts, "ents"))
 	for _, c := range kids {
 		parts = append(parts, c08One(ts, "ckeys "+vhHex(c)+" -"))
 		for _, k := range inKeys {
-			parts = append(parts, c08One(ts, "cget "+vhHex(c)+" "+vhHex(k)),
-				c08One(ts, "cnext "+vhHex(c)+" "+vhHex(k)))
+			if len(k) > 0 {
+				parts = append(parts, c08One(ts, "cget "+vhHex(c)+" "+vhHex(k)))
+			}
+			parts = append(parts, c08One(ts, "cnext "+vhHex(c)+" "+vhHex(k)))
 		}
 	}
 	parts = append(parts, vhCatch(func() string { return c08Base(ts) }))
